@@ -90,7 +90,14 @@ fn gen_config(r: &mut Rng) -> String {
         cfg.push_str(&format!("global_usage = {{ ignore_pattern = \"{}\" }}\n", r.pick(&["^_", "", "a"])));
     }
     if r.chance(1, 4) {
-        cfg.push_str("deprecated = { allow = [\"a.*\", \"b\", \"table.getn\"] }\n");
+        cfg.push_str(*r.pick(&["deprecated = { allow = [\"a.*\", \"b\", \"table.getn\"] }\n",
+                               "deprecated = { allow = [\"table.getn\", \"math.*.huge\", \"string.format.x.y\", \"*\", \"math\", \"table.getn.more\"] }\n",
+                               "deprecated = { allow = [] }\n"]));
+    }
+    if r.chance(1, 6) {
+        // invalid regular expressions: refused when the checker is built (then the case is outside the property), never later
+        let bad = *r.pick(&["(", "[a-", "*", "(?P<n>"]);
+        cfg.push_str(&format!("{} = {{ ignore_pattern = \"{}\" }}\n", r.pick(&["unscoped_variables", "unused_variable", "shadowing", "global_usage"]), bad));
     }
     s.push_str(&cfg);
     s
@@ -232,7 +239,11 @@ pub fn generate(seed: u64, n: usize, thorough: bool) -> Cases {
         if src.len() > (if thorough { 6000 } else { 3000 }) {
             continue;
         }
-        let config_text = if queued.is_some() { "[lints]\nglobal_usage = \"warn\"\nmust_use = \"warn\"\n".to_string() } else { gen_config(&mut r) };
+        let config_text = if queued.is_some() {
+            "[lints]\nglobal_usage = \"warn\"\nmust_use = \"warn\"\n[config]\ndeprecated = { allow = [\"table.getn.more\", \"math.*.huge\", \"string.*\"] }\n".to_string()
+        } else {
+            gen_config(&mut r)
+        };
         let config: CheckerConfig<toml::value::Value> = match toml::from_str(&config_text) {
             Ok(c) => c,
             Err(_) => continue,
